@@ -33,7 +33,7 @@ Proof.
   destruct (o_res (ob os i)) as [d|[a|a]| | |]; try discriminate.
   - destruct (o_shared (ob os i)).
     + destruct (elig (rq reqs i)) eqn:El; cbn [negb]; [|discriminate].
-      destruct (existsb (fun j => producer reqs os i AOk j || producer reqs os i AFailBody j) (actors reqs)) eqn:Ex;
+      destruct (existsb (fun j => producer reqs os i AOk j || producer reqs os i AFailBody j || producer reqs os i ACanBody j) (actors reqs)) eqn:Ex;
         cbn [negb]; [|discriminate].
       intros H. split; [reflexivity|].
       destruct (existsb (fun j => producer reqs os i AOk j) (actors reqs)) eqn:E1.
